@@ -11,7 +11,8 @@ import py2coq  # noqa: E402
 CASES = {
     "for loop": "def f(x: str) -> bool:\n    for c in x:\n        return True\n    return False\n",
     "while": "def f(x: int) -> int:\n    while x > 0:\n        x = x - 1\n    return x\n",
-    "truthiness": "def f(x: str) -> bool:\n    if x:\n        return True\n    return False\n",
+    "truthiness of Optional": "from typing import Optional\ndef f(x: Optional[str]) -> bool:\n    if x:\n        return True\n    return False\n",
+    "truthiness of tuple": "from typing import Tuple\ndef f(x: Tuple[int, int]) -> bool:\n    return not x\n",
     "or on str": "def f(x: str, y: str) -> str:\n    return x or y\n",
     "alias then mutate": "def f(p: str) -> str:\n    a = p.split('/')\n    b = a\n    a[-1] = 'x'\n    return '/'.join(b)\n",
     "mutate param": "from typing import List\ndef f(a: List[str]) -> str:\n    a.append('x')\n    return '/'.join(a)\n",
@@ -21,7 +22,8 @@ CASES = {
     "kwargs call": "def g(a: int) -> int:\n    return a\ndef f(x: int) -> int:\n    return g(a=x)\n",
     "untyped param": "def f(x):\n    return x\n",
     "try": "def f(x: str) -> int:\n    try:\n        return 1\n    except Exception:\n        return 2\n",
-    "split maxsplit": "def f(x: str) -> str:\n    return x.split('.', 1)[0]\n",
+    "split maxsplit 2": "def f(x: str) -> str:\n    return x.split('.', 2)[0]\n",
+    "rsplit variable maxsplit": "def f(x: str, n: int) -> str:\n    return x.rsplit('.', n)[0]\n",
     "split no arg": "def f(x: str) -> str:\n    return x.split()[0]\n",
     "floor div": "def f(x: int) -> int:\n    return x // 2\n",
     "format spec": "def f(x: int) -> str:\n    return f'{x:03d}'\n",
@@ -71,8 +73,20 @@ CASES = {
     "tuple of generator": "from typing import List\ndef f(a: List[str]) -> bool:\n    return tuple(x for x in a) == ('a', 'b')\n",
     "format ok (control)": "def f(x: str, n: int) -> str:\n    return '{}:{{}}{}'.format(x, n)\n",
     "generator in join (control)": "from typing import List\ndef f(a: List[int]) -> str:\n    return '.'.join(str(n) for n in a if n > 0)\n",
+    # nested functions, del, value of and/or
+    "nested def (general)": "def f(x: int) -> int:\n    def g(y: int) -> int:\n        return y + 1\n    return g(x)\n",
+    "nested raiser called, not raised": "def f(x: int) -> str:\n    def err(m: str) -> ValueError:\n        return ValueError(m)\n    if x > 0:\n        raise err('a')\n    e = err('b')\n    return 'ok'\n",
+    "nested raiser with default": "def f(x: int) -> int:\n    def err(m: str = 'a') -> ValueError:\n        return ValueError(m)\n    if x > 0:\n        raise err()\n    return 1\n",
+    "nested raiser with untyped param": "def f(x: int) -> int:\n    def err(m):\n        return ValueError(m)\n    if x > 0:\n        raise err('a')\n    return 1\n",
+    "nested raiser with two statements": "def f(x: int) -> int:\n    def err(m: str) -> ValueError:\n        m = m + '!'\n        return ValueError(m)\n    if x > 0:\n        raise err('a')\n    return 1\n",
+    "del first element": "def f(p: str) -> str:\n    a = p.split('/')\n    del a[0]\n    return '/'.join(a)\n",
+    "del name": "def f(p: str) -> str:\n    a = p\n    del a\n    return p\n",
+    "value of and on str": "def f(x: str, y: str) -> bool:\n    z = x and y\n    return z == 'a'\n",
+    "truthiness ok (control)": "def f(x: str, n: int) -> bool:\n    if x and not n:\n        return True\n    return False\n",
+    "nested raiser ok (control)": "def f(x: int, name: str) -> int:\n    def err(m: str) -> ValueError:\n        return ValueError(f'{name}: {m}')\n    if x > 0:\n        raise err('positive')\n    return 1\n",
+    "rsplit ok (control)": "def f(x: str) -> str:\n    return x.rsplit('/', 1)[-1] + x.rpartition('/')[2]\n",
 }
-EXPECT_OK = {"raise in assigning branch", "format ok (control)", "generator in join (control)"}
+EXPECT_OK = {"truthiness ok (control)", "nested raiser ok (control)", "rsplit ok (control)", "raise in assigning branch", "format ok (control)", "generator in join (control)"}
 
 
 def main() -> int:
